@@ -193,12 +193,14 @@ Section S.
     Qed.
 
     Theorem verify_of_square_spec (p : proof_sq) Ei Fi :
+      0 <= sq_F p < n ->
       invert (sq_E p) n = Some Ei -> invert (sq_F p) n = Some Fi ->
       verify_of_square p g h n =
       Ok (ss_chal (sq_ss p) =? hash_int (str_cat [ss_W1 g gi h hi (sq_F p) Fi (sq_ss p);
                                                    ss_W2 (sq_F p) Fi h hi (sq_E p) Ei (sq_ss p)])).
     Proof.
-      intros HEi HFi. unfold verify_of_square.
+      intros HFr HEi HFi. unfold verify_of_square.
+      destruct (Z.ltb_spec (sq_F p) 0) as [|_]; [lia|]. destruct (Z.leb_spec n (sq_F p)) as [|_]; [lia|]. cbn [orb].
       apply (verify_same_secret_spec g gi h hi (sq_F p) Fi h hi (sq_F p) Fi (sq_E p) Ei Hg Hh HFi Hh HFi HEi).
     Qed.
   End Square.
